@@ -478,7 +478,9 @@ func checkC21(c *Ctx) {
 				}
 			}
 		}
-		insField := func(name string) Pat { return FieldVal(name, func(v ssa.Value, _ *Bind) bool { return IsParam(v, insP) || isLocalCopyOf(v, insP) }) }
+		insField := func(name string) Pat {
+			return FieldVal(name, func(v ssa.Value, _ *Bind) bool { return IsParam(v, insP) || isLocalCopyOf(v, insP) })
+		}
 		check := func(field string, ok bool, why string) {
 			c.Oblige("C21.ins", key+"/"+field, c.Prog.FuncPos(ni), ok, why)
 		}
@@ -855,7 +857,9 @@ func checkJumpsAppendForm(c *Ctx, j *ssa.Function) {
 			if cmp, ok := g.Cond.(*ssa.BinOp); ok && (cmp.Op == token.NEQ || cmp.Op == token.EQL) && (cmp.Op == token.EQL) == g.Outcome {
 				isAddr := func(v ssa.Value) bool { return matches(v, ExtractN(0, CallTo("pkg/expr.ConstUint", Any()))) }
 				isEnd := func(v ssa.Value) bool {
-					return matches(v, Method("End", func(x ssa.Value, _ *Bind) bool { return IsParam(x, j.Params[0]) || isLocalCopyOf(x, j.Params[0]) || true }))
+					return matches(v, Method("End", func(x ssa.Value, _ *Bind) bool {
+						return IsParam(x, j.Params[0]) || isLocalCopyOf(x, j.Params[0]) || true
+					}))
 				}
 				if (isAddr(cmp.X) && isEnd(cmp.Y)) || (isAddr(cmp.Y) && isEnd(cmp.X)) {
 					eqEnd = true
